@@ -1,19 +1,139 @@
-"""per-property configuration of ./check"""
+"""per-property configuration of ./check
+
+modules   Lean modules holding the property's theorems (built on every run)
+theorems  fully qualified names audited with `#print axioms` on every run
+quick / thorough
+  profiles  (harness profile, workers, histories per worker)
+  special   names of functions in tools/special.py (crash points, concurrency, …)
+target    what makes a history non-trivial for the property (besides an accepted write)
+"""
+
 
 def has(prefixes):
     return lambda lines: any(l.startswith(prefixes) for l in lines)
 
+
+def has_result(sub):
+    return lambda lines: any(sub in l for l in lines)
+
+
 PROPS = {
     "C01": {
-        "modules": [], "theorems": [],
-        "quick": {"profiles": [("crud", 8, 25)]},
-        "thorough": {"profiles": [("crud", 16, 250)]},
+        "title": "Reads reflect exactly the accepted writes",
+        "modules": ["Props.C01"],
+        "quick": {"profiles": [("crud", 8, 40)]},
+        "thorough": {"profiles": [("crud", 16, 600)]},
         "target": has(("del ", "sdel ", "delall", "reopen")),
+        "design_ref": "5/C01",
     },
     "C02": {
-        "modules": [], "theorems": [],
-        "quick": {"profiles": [("search", 8, 12)]},
-        "thorough": {"profiles": [("search", 16, 120)]},
+        "title": "Search returns exactly the matching objects",
+        "modules": ["Props.C02"],
+        "quick": {"profiles": [("search", 8, 20)]},
+        "thorough": {"profiles": [("search", 16, 250)]},
         "target": has(("and ", "or ", "collect ")),
+        "design_ref": "5/C02",
+    },
+    "C03": {
+        "title": "Uniqueness never violated, never over-enforced",
+        "modules": ["Props.C03"],
+        "quick": {"profiles": [("unique", 8, 40)]},
+        "thorough": {"profiles": [("unique", 16, 600)]},
+        "target": has_result("E:unique"),
+        "design_ref": "5/C03",
+    },
+    "C04": {
+        "title": "Close/reopen preserves objects, indexes, constraints",
+        "modules": ["Props.C04"],
+        "quick": {"profiles": [("reopen", 8, 15)]},
+        "thorough": {"profiles": [("reopen", 16, 200)]},
+        "target": has(("reopen",)),
+        "design_ref": "5/C04",
+    },
+    "C05": {
+        "title": "A crash at any point is detected or harmless, and Repair converges",
+        "modules": ["Props.C05"],
+        "quick": {"special": ["crash_points"]},
+        "thorough": {"special": ["crash_points"]},
+        "target": has(("ins ", "many ", "del ")),
+        "rule": "every crash point (position between two directory mutations) of every generated history is executed: "
+                "the real process is stopped there, a fresh process recovers; distinct = (history, crash point)",
+        "design_ref": "5/C05",
+    },
+    "C06": {
+        "title": "A rejected or failed write leaves no trace",
+        "modules": ["Props.C06"],
+        "quick": {"profiles": [("reject", 8, 30)], },
+        "thorough": {"profiles": [("reject", 16, 400)], },
+        "target": has_result("=> E:"),
+        "design_ref": "5/C06",
+    },
+    "C07": {
+        "title": "Batch insertion is all-or-nothing",
+        "modules": ["Props.C07"],
+        "quick": {"profiles": [("batch", 8, 30)]},
+        "thorough": {"profiles": [("batch", 16, 400)]},
+        "target": has(("many ", "bulk ")),
+        "design_ref": "5/C07",
+    },
+    "C11": {
+        "title": "Control detects every divergence, Repair restores agreement",
+        "modules": ["Props.C11"],
+        "quick": {"profiles": [("fault", 8, 25)]},
+        "thorough": {"profiles": [("fault", 16, 300)]},
+        "target": has(("rmfile", "addfile", "dropentry", "rmschema")),
+        "design_ref": "5/C11",
+    },
+    "C13": {
+        "title": "Result order, Reverse, Limit, One, AssignIndex",
+        "modules": ["Props.C13"],
+        "quick": {"profiles": [("order", 8, 40)]},
+        "thorough": {"profiles": [("order", 16, 500)]},
+        "target": has(("collect ", "one ", "aidx ")),
+        "design_ref": "5/C13",
+    },
+    "C15": {
+        "title": "Validate and Transform gate every insertion path",
+        "modules": ["Props.C15"],
+        "quick": {"profiles": [("hooks", 8, 30)]},
+        "thorough": {"profiles": [("hooks", 16, 400)]},
+        "target": has_result("E:invalid"),
+        "design_ref": "5/C15",
+    },
+    "C16": {
+        "title": "upper/lower canonicalisation",
+        "modules": ["Props.C16"],
+        "quick": {"profiles": [("case", 8, 25)], "special": ["case_tables"]},
+        "thorough": {"profiles": [("case", 16, 300)], "special": ["case_tables"]},
+        "target": has(("search ", "collect ")),
+        "design_ref": "5/C16",
+    },
+    "C17": {
+        "title": "Schema guard",
+        "modules": ["Props.C17"],
+        "quick": {"profiles": [("guard", 8, 20)]},
+        "thorough": {"profiles": [("guard", 16, 250)]},
+        "target": has(("reshape", "create ")),
+        "design_ref": "5/C17",
+    },
+    "C20": {
+        "title": "A search result is a snapshot",
+        "modules": ["Props.C20"],
+        "quick": {"profiles": [("snapshot", 8, 40)]},
+        "thorough": {"profiles": [("snapshot", 16, 500)]},
+        "target": has(("collect ",)),
+        "design_ref": "5/C20",
     },
 }
+
+# theorem lists live next to the Lean sources so that they cannot drift apart silently
+import json, os
+_t = os.path.join(os.path.dirname(os.path.dirname(os.path.abspath(__file__))), "lean", "Props", "theorems.json")
+if os.path.exists(_t):
+    for pid, names in json.load(open(_t)).items():
+        if pid in PROPS:
+            PROPS[pid]["theorems"] = names
+for p in PROPS.values():
+    p.setdefault("theorems", [])
+    if not p["theorems"]:
+        p["modules"] = []
